@@ -13,7 +13,7 @@ import Mathlib.Tactic.FieldSimp
 import Mathlib.Algebra.CharZero.Defs
 
 namespace C15
-variable {K : Type} [Field K] [CharZero K]
+variable {K : Type} [Field K] [LinearOrder K] [CharZero K]
 set_option linter.unusedSectionVars false
 
 section scalar
